@@ -224,6 +224,23 @@ def run_binary(case):
         c.cmp(f"shape={sa}x{sb}", f"{fn}{mode} generic values", got, ref)
         if not (np.array_equal(Ag, A0) and np.array_equal(Bg, B0)):
             c.bad(f"shape={sa}x{sb}/inputs", "inputs modified", "modified", "unchanged")
+        # BOTH arguments are the same array object (cdya(F, F), dot(A, A), ddot(S, S), ...): same values as for two equal arrays
+        if sa == sb and oa == ob:
+            ref_same = _ref_binary(name, Ag, Ag.copy())
+            for vlab, kw_same in (("", {}), ("/parallel", dict(parallel=True))) if fn in ("dot", "ddot", "dya", "cdya_ik", "cdya_il", "cdya") else (("", {}),):
+                try:
+                    g_same = _call_binary(fm, name, Ag, Ag, **kw_same)
+                except TypeError:
+                    continue
+                c.trans += 1
+                c.cmp(f"shape={sa}/same-object{vlab}", f"{fn}{mode} with the SAME array object given for both arguments", g_same, ref_same)
+            if fn in ("dot", "ddot", "dddot", "dya", "cdya_ik", "cdya_il", "cdya") and np.ndim(ref_same) > 0:
+                buf_s = np.full_like(ref_same, -3.5)
+                r_s = _call_binary(fm, name, Ag, Ag, out=buf_s)
+                c.trans += 1
+                c.cmp(f"shape={sa}/same-object/out", "same array object for both arguments, with out=", buf_s, ref_same)
+            if not np.array_equal(Ag, A0):
+                c.bad(f"shape={sa}/same-object/inputs", "inputs modified", "modified", "unchanged")
         # memory layouts of the inputs: Fortran order, reversed-stride view, broadcast view (stride 0) -- same values
         if sa == sb:
             for lay, fA, fB in (("F", np.asfortranarray, np.asfortranarray), ("rev", lambda a: a[..., ::-1][..., ::-1], lambda a: np.ascontiguousarray(a[::-1])[::-1]),
